@@ -52,6 +52,10 @@ def clean_attributes(
         array([[1]], dtype=uint32)
 
     """
+    if not poly.size:
+        # an empty array has no coefficients to rebuild from (and no term
+        # that could be redundant); rebuilding would lose its shape
+        return poly
     return numpoly.ndpoly.from_attributes(
         exponents=poly.exponents,
         coefficients=poly.coefficients,
